@@ -39,6 +39,8 @@ pub struct DriveOpts {
     /// number of sweep sessions: together they deliver every corpus item and directed seed
     /// (twice each, under two contexts), so systematic seeds never depend on sampling
     pub sweep: u64,
+    /// number of marathon sessions (70k..80k requests each)
+    pub marathon: u64,
     /// the sweep sessions and the first N ordinary sessions also write (request, output) pairs
     /// to <out>/dump/<idx>.jsonl for the rustc-parser engine
     pub dump_sessions: u64,
@@ -200,8 +202,10 @@ pub fn drive(o: &DriveOpts) -> Result<DriveSummary, String> {
 
     // ---- run sessions, at most `jobs` at a time; results are merged in index order afterwards
     let mut running: Vec<(u64, Child, Instant)> = Vec::new();
-    let ids: Vec<u64> = (0..o.sweep)
-        .map(|k| crate::session::SWEEP_BASE + k)
+    // longest first, so that the marathon sessions overlap with everything else
+    let ids: Vec<u64> = (0..o.marathon)
+        .map(|k| crate::session::MARATHON_BASE + k)
+        .chain((0..o.sweep).map(|k| crate::session::SWEEP_BASE + k))
         .chain(o.first_session..o.first_session + o.sessions)
         .collect();
     let mut next = 0usize;
